@@ -172,10 +172,12 @@ theorem apply_noPanic (cfg : Cfg) (hm : cfg.maxNilCheck = true) (l : List Member
     · split <;> rfl
     · split
       · rfl
-      · unfold applyMax
-        split
+      · split
         · rfl
-        · simp [hm, Res.isPanic]
+        · unfold applyMax
+          split
+          · rfl
+          · simp [hm, Res.isPanic]
 
 mutual
 theorem matchSR_noPanic (cfg : Cfg) (hm : cfg.maxNilCheck = true) (cands : List Cand) :
